@@ -277,3 +277,4 @@ def check(repo, rep, tier):
   # symmetry: neither point of a pair is converted to the other's dtype
   from . import c06b
   c06b.rule_no_cross_dtype_cast(repo, rep)
+  c06b.rule_pair_distance_covers(repo, rep)
